@@ -38,50 +38,138 @@ structure RecOK (rec rec' : VmCtx → Chunk → State → RunRes) (c c' : Chunk)
   incl : ∀ vm ch s, GoodState c c' f P s →
     OutRel (rec vm ch (includeState s)) (rec' vm ch (includeState (mapState f s)))
 
-section paths
-variable {c c' : Chunk} {f : Nat → Nat} {P : Nat → Nat → Prop}
+/-! ### the same with a relation `E` between the errors of the two sides -/
 
-theorem rel_errorAt (hR : Ren c c' f) (env : Env) (vm : VmCtx) {pc k j j' : Nat}
-    (h : c'.hasSpanAt k j' = c.hasSpanAt pc j) (s s' : String) (e e' : RErr) :
-    StepRel c c' f P (errorAt env vm c pc j s e) (errorAt env vm c' k j' s' e') := by
-  simp only [errorAt, h]
-  split
-  · exact rel_raise hR env vm e e'
-  · exact rel_panic _ _
-
-def WalkRel (c c' : Chunk) (f : Nat → Nat) (P : Nat → Nat → Prop) : Walk → Walk → Prop
-  | .val v, .val v' => v' = v
-  | .stop r, .stop r' => StepRel c c' f P r r'
+def RunRelG (E : RErr → RErr → Prop) (π : PMap) (c c' : Chunk) (f : Nat → Nat) (P : Nat → Nat → Prop) :
+    RunRes → RunRes → Prop
+  | .done a, .done b => b = mapStateP f π a ∧ GoodState c c' f P a
+  | .err e, .err e' => E e e'
+  | .panic _, .panic _ => True
+  | .unmodelled _, .unmodelled _ => True
+  | .outOfFuel, .outOfFuel => True
   | _, _ => False
 
-theorem walkLoad_rel (hR : Ren c c' f) (env : Env) (vm : VmCtx) {pc k : Nat}
+def OutRelG (E : RErr → RErr → Prop) : RunRes → RunRes → Prop
+  | .done a, .done b => b.out = a.out
+  | .err e, .err e' => E e e'
+  | .panic _, .panic _ => True
+  | .unmodelled _, .unmodelled _ => True
+  | .outOfFuel, .outOfFuel => True
+  | _, _ => False
+
+structure RecOKG (E : RErr → RErr → Prop) (π : PMap) (rec rec' : VmCtx → Chunk → State → RunRes) (c c' : Chunk)
+    (f : Nat → Nat) (P : Nat → Nat → Prop) : Prop where
+  same : ∀ vm ch s, GoodState c c' f P s → RunRelG E π c c' f P (rec vm ch s) (rec' vm ch (mapStateP f π s))
+  incl : ∀ vm ch s, GoodState c c' f P s →
+    OutRelG E (rec vm ch (includeState s)) (rec' vm ch (includeState (mapStateP f π s)))
+
+/-- the instructions that enter a block chunk with the caller's whole state -/
+def isBlockCall : VInstr → Bool
+  | .renderBlock _ => true
+  | .callFunction n => decide (n = "super")
+  | _ => false
+
+/-- what `RenderBlock` / `super()` need of the nested interpreters (the `same` of `RecOKG`) -/
+def BlockOK (E : RErr → RErr → Prop) (π : PMap) (rec rec' : VmCtx → Chunk → State → RunRes) (c c' : Chunk)
+    (f : Nat → Nat) (P : Nat → Nat → Prop) : Prop :=
+  ∀ vm ch s, GoodState c c' f P s → RunRelG E π c c' f P (rec vm ch s) (rec' vm ch (mapStateP f π s))
+
+/-- what `Include` and a component call need of the nested interpreters: the callee starts on a
+fresh state (chained to the includer for reads / holding the bound arguments) and only the text it
+writes is used -/
+structure FreshOK (E : RErr → RErr → Prop) (π : PMap) (rec rec' : VmCtx → Chunk → State → RunRes) (c c' : Chunk)
+    (f : Nat → Nat) (P : Nat → Nat → Prop) : Prop where
+  incl : ∀ vm ch s, GoodState c c' f P s →
+    OutRelG E (rec vm ch (includeState s)) (rec' vm ch (includeState (mapStateP f π s)))
+  comp : ∀ vm ch bound, OutRelG E (rec vm ch (componentState bound)) (rec' vm ch (componentState bound))
+
+theorem RunRelG.out {E : RErr → RErr → Prop} {π : PMap} {c c' : Chunk} {f : Nat → Nat} {P : Nat → Nat → Prop}
+    {a b : RunRes} (h : RunRelG E π c c' f P a b) : OutRelG E a b := by
+  cases a <;> cases b <;> first | exact h.elim | exact True.intro | exact h | skip
+  obtain ⟨rfl, _⟩ := h
+  rfl
+
+theorem RecOKG.fresh {E : RErr → RErr → Prop} {π : PMap} {rec rec' : VmCtx → Chunk → State → RunRes}
+    {c c' : Chunk} {f : Nat → Nat} {P : Nat → Nat → Prop} (h : RecOKG E π rec rec' c c' f P) :
+    FreshOK E π rec rec' c c' f P :=
+  ⟨h.incl, fun vm ch bound => by
+    have hg : GoodState c c' f P (componentState bound) :=
+      ⟨by intro s hs; simp [componentState, State.fresh] at hs,
+       by intro l hl; simp [componentState, State.fresh, Scope.forLoops] at hl⟩
+    have := (h.same vm ch (componentState bound) hg).out
+    have he : mapStateP f π (componentState bound) = componentState bound := rfl
+    rw [he] at this
+    exact this⟩
+
+theorem RecOKG.blockOK {E : RErr → RErr → Prop} {π : PMap} {rec rec' : VmCtx → Chunk → State → RunRes}
+    {c c' : Chunk} {f : Nat → Nat} {P : Nat → Nat → Prop} (h : RecOKG E π rec rec' c c' f P) :
+    BlockOK E π rec rec' c c' f P := h.same
+
+theorem RunRelG.weaken {E : RErr → RErr → Prop} {c c' : Chunk} {f : Nat → Nat} {P : Nat → Nat → Prop}
+    {a b : RunRes} (h : RunRelG E idP c c' f P a b) : RunRel c c' f P a b := by
+  cases a <;> cases b <;> first | exact h.elim | exact True.intro | skip
+  obtain ⟨h1, h2⟩ := h
+  exact ⟨by rw [h1, mapStateP_id], h2⟩
+
+theorem RunRelG.of_true {c c' : Chunk} {f : Nat → Nat} {P : Nat → Nat → Prop}
+    {a b : RunRes} (h : RunRel c c' f P a b) : RunRelG (fun _ _ => True) idP c c' f P a b := by
+  cases a <;> cases b <;> first | exact h.elim | exact True.intro | skip
+  obtain ⟨h1, h2⟩ := h
+  exact ⟨by rw [h1, mapStateP_id], h2⟩
+
+theorem RecOKG.of_true {rec rec' : VmCtx → Chunk → State → RunRes} {c c' : Chunk} {f : Nat → Nat}
+    {P : Nat → Nat → Prop} (h : RecOK rec rec' c c' f P) : RecOKG (fun _ _ => True) idP rec rec' c c' f P :=
+  ⟨fun vm ch s hs => by rw [mapStateP_id]; exact RunRelG.of_true (h.same vm ch s hs), fun vm ch s hs => by
+    have := h.incl vm ch s hs
+    rw [mapStateP_id]
+    revert this
+    cases rec vm ch (includeState s) <;> cases rec' vm ch (includeState (mapState f s)) <;>
+      intro h <;> first | exact h | exact True.intro⟩
+
+section paths
+variable {E : RErr → RErr → Prop} {π : PMap} {c c' : Chunk} {f : Nat → Nat} {P : Nat → Nat → Prop}
+
+theorem rel_errorAt (hR : Ren c c' f) (env : Env) (vm : VmCtx) {pc k j j' : Nat}
+    (h : c'.hasSpanAt k j' = c.hasSpanAt pc j) (s s' : String) (e e' : RErr) (he : E e e') :
+    StepRelG E π c c' f P (errorAt env vm c pc j s e) (errorAt env vm c' k j' s' e') := by
+  simp only [errorAt, h]
+  split
+  · exact rel_raise hR env vm e e' he
+  · exact rel_panic _ _
+
+def WalkRel (E : RErr → RErr → Prop) (π : PMap) (c c' : Chunk) (f : Nat → Nat) (P : Nat → Nat → Prop) : Walk → Walk → Prop
+  | .val v, .val v' => v' = v
+  | .stop r, .stop r' => StepRelG E π c c' f P r r'
+  | _, _ => False
+
+theorem walkLoad_rel (hE : ∀ e, E e e) (hR : Ren c c' f) (env : Env) (vm : VmCtx) {pc k : Nat}
     (h : ∀ j, c'.hasSpanAt k j = c.hasSpanAt pc j) :
     ∀ (attrs : List String) (cur : Value) (j : Nat),
-      WalkRel c c' f P (walkLoad env vm c pc cur j attrs) (walkLoad env vm c' k cur j attrs)
+      WalkRel E π c c' f P (walkLoad env vm c pc cur j attrs) (walkLoad env vm c' k cur j attrs)
   | [], cur, j => by simp only [walkLoad]; exact rfl
   | a :: rest, cur, j => by
     simp only [walkLoad]
     split
-    · exact rel_errorAt hR env vm (h _) _ _ _ _
+    · exact rel_errorAt hR env vm (h _) _ _ _ _ (hE _)
     · split
-      · exact walkLoad_rel hR env vm h rest _ _
+      · exact walkLoad_rel hE hR env vm h rest _ _
       · split
-        · exact rel_errorAt hR env vm (h _) _ _ _ _
+        · exact rel_errorAt hR env vm (h _) _ _ _ _ (hE _)
         · exact rfl
 
-theorem walkWrite_rel (hR : Ren c c' f) (env : Env) (vm : VmCtx) {pc k : Nat}
+theorem walkWrite_rel (hE : ∀ e, E e e) (hR : Ren c c' f) (env : Env) (vm : VmCtx) {pc k : Nat}
     (h : ∀ j, c'.hasSpanAt k j = c.hasSpanAt pc j) :
     ∀ (attrs : List String) (cur : Value) (j : Nat),
-      WalkRel c c' f P (walkWrite env vm c pc cur j attrs) (walkWrite env vm c' k cur j attrs)
+      WalkRel E π c c' f P (walkWrite env vm c pc cur j attrs) (walkWrite env vm c' k cur j attrs)
   | [], cur, j => by simp only [walkWrite]; exact rfl
   | a :: rest, cur, j => by
     simp only [walkWrite]
     split
-    · exact walkWrite_rel hR env vm h rest _ _
-    · exact rel_errorAt hR env vm (h _) _ _ _ _
+    · exact walkWrite_rel hE hR env vm h rest _ _
+    · exact rel_errorAt hR env vm (h _) _ _ _ _ (hE _)
 
-theorem walk_cases {w w' : Walk} (h : WalkRel c c' f P w w') :
-    (∃ v, w = .val v ∧ w' = .val v) ∨ (∃ r r', w = .stop r ∧ w' = .stop r' ∧ StepRel c c' f P r r') := by
+theorem walk_cases {w w' : Walk} (h : WalkRel E π c c' f P w w') :
+    (∃ v, w = .val v ∧ w' = .val v) ∨ (∃ r r', w = .stop r ∧ w' = .stop r' ∧ StepRelG E π c c' f P r r') := by
   cases w with
   | val v =>
     cases w' with
@@ -95,13 +183,14 @@ theorem walk_cases {w w' : Walk} (h : WalkRel c c' f P w w') :
 end paths
 
 section arms
-variable {c c' : Chunk} {f : Nat → Nat} {P : Nat → Nat → Prop} (hR : Ren c c' f)
+variable {E : RErr → RErr → Prop} {π : PMap} (hE : ∀ e, E e e)
+  {c c' : Chunk} {f : Nat → Nat} {P : Nat → Nat → Prop} (hR : Ren c c' f)
   {pc k : Nat} (hpc : Good c c' f pc) (hk : f pc = k) (hnext : P (pc + 1) (k + 1))
   (env : Env) (vm : VmCtx) {st : State} (hst : GoodState c c' f P st)
-include hR hpc hk hnext hst
+include hE hR hpc hk hnext hst
 
 theorem arm_loadPath (h : ∀ j, c'.hasSpanAt k j = c.hasSpanAt pc j) (path : List String) :
-    StepRel c c' f P (stepLoadPath env vm c path pc st) (stepLoadPath env vm c' path k (mapState f st)) := by
+    StepRelG E π c c' f P (stepLoadPath env vm c path pc st) (stepLoadPath env vm c' path k (mapStateP f π st)) := by
   unfold stepLoadPath
   cases path with
   | nil => exact rel_panic _ _
@@ -110,15 +199,15 @@ theorem arm_loadPath (h : ∀ j, c'.hasSpanAt k j = c.hasSpanAt pc j) (path : Li
     generalize (if attrs = [] then lookupName st.scope n else st.scope.getValue n) = root
     split
     · split
-      · exact rel_errorAt hR env vm (h _) _ _ _ _
-      · rcases walk_cases (walkLoad_rel (P := P) hR env vm h attrs root 0) with
+      · exact rel_errorAt hR env vm (h _) _ _ _ _ (hE _)
+      · rcases walk_cases (walkLoad_rel (P := P) (π := π) hE hR env vm h attrs root 0) with
           ⟨v, h1, h2⟩ | ⟨r, r', h1, h2, h3⟩
-        · rw [h1, h2]; exact arm_push hR hpc hk hnext hst _
+        · rw [h1, h2]; exact arm_push hE hR hpc hk hnext hst _
         · rw [h1, h2]; exact h3
-    · exact arm_push hR hpc hk hnext hst _
+    · exact arm_push hE hR hpc hk hnext hst _
 
 theorem arm_writePath (h : ∀ j, c'.hasSpanAt k j = c.hasSpanAt pc j) (path : List String) :
-    StepRel c c' f P (stepWritePath env vm c path pc st) (stepWritePath env vm c' path k (mapState f st)) := by
+    StepRelG E π c c' f P (stepWritePath env vm c path pc st) (stepWritePath env vm c' path k (mapStateP f π st)) := by
   unfold stepWritePath
   cases path with
   | nil => exact rel_panic _ _
@@ -126,107 +215,107 @@ theorem arm_writePath (h : ∀ j, c'.hasSpanAt k j = c.hasSpanAt pc j) (path : L
     simp only [mapState_scope, mapScope_lookupName, mapScope_getValue]
     generalize (if attrs = [] then lookupName st.scope n else st.scope.getValue n) = root
     split
-    · exact rel_errorAt hR env vm (h _) _ _ _ _
-    · rcases walk_cases (walkWrite_rel (P := P) hR env vm h attrs root 0) with
+    · exact rel_errorAt hR env vm (h _) _ _ _ _ (hE _)
+    · rcases walk_cases (walkWrite_rel (P := P) (π := π) hE hR env vm h attrs root 0) with
         ⟨v, h1, h2⟩ | ⟨r, r', h1, h2, h3⟩
       · rw [h1, h2]
         simp only
         split
-        · exact rel_errorAt hR env vm (h _) _ _ _ _
-        · refine ⟨hnext, mapState_emit f env vm v st, ?_⟩
+        · exact rel_errorAt hR env vm (h _) _ _ _ _ (hE _)
+        · refine ⟨hnext, mapState_emit f π env vm v st, ?_⟩
           unfold emitValue State.write
           cases st.captures <;> exact hst
       · rw [h1, h2]; exact h3
 
 /-! ### arms that call `interpret` again -/
 
-variable {rec rec' : VmCtx → Chunk → State → RunRes} (hrec : RecOK rec rec' c c' f P)
+variable {rec rec' : VmCtx → Chunk → State → RunRes} (hrec : FreshOK E π rec rec' c c' f P)
 include hrec
 
 theorem arm_include (name : String) :
-    StepRel c c' f P (stepInclude rec env vm name pc st) (stepInclude rec' env vm name k (mapState f st)) := by
+    StepRelG E π c c' f P (stepInclude rec env vm name pc st) (stepInclude rec' env vm name k (mapStateP f π st)) := by
   unfold stepInclude
   split
-  · exact rel_err _ _
+  · exact rel_err _ _ (hE _)
   · rename_i tpl _
     have h := hrec.incl { vm with template := tpl } tpl.chunk st hst
     revert h
     cases rec { vm with template := tpl } tpl.chunk (includeState st) <;>
-      cases rec' { vm with template := tpl } tpl.chunk (includeState (mapState f st)) <;>
-      intro h <;> first | exact h.elim | exact True.intro | skip
+      cases rec' { vm with template := tpl } tpl.chunk (includeState (mapStateP f π st)) <;>
+      intro h <;> first | exact h.elim | exact True.intro | exact h | skip
     rename_i a b
     have hout : b.out = a.out := h
     simp only [hout]
-    exact arm_writeText hR hpc hk hnext hst _
+    exact arm_writeText hE hR hpc hk hnext hst _
 
 theorem enterBlock_map (name : String) (lin : List Chunk) :
-    enterBlock (mapState f st) name lin = mapState f (enterBlock st name lin) := by
+    enterBlock (mapStateP f π st) name lin = mapStateP f π (enterBlock st name lin) := by
   unfold enterBlock
   simp only [mapState_captureBlock]
-  by_cases hcb : (st.captureBlock == some name) = true <;> simp [hcb, mapState]
+  by_cases hcb : (st.captureBlock == some name) = true <;> simp [hcb, mapStateP]
 
-theorem arm_renderBlock (name : String) :
-    StepRel c c' f P (stepRenderBlock rec vm name pc st) (stepRenderBlock rec' vm name k (mapState f st)) := by
+theorem arm_renderBlock (hbl : BlockOK E π rec rec' c c' f P) (name : String) :
+    StepRelG E π c c' f P (stepRenderBlock rec vm name pc st) (stepRenderBlock rec' vm name k (mapStateP f π st)) := by
   unfold stepRenderBlock
   split
-  · exact rel_err _ _
-  · exact rel_err _ _
+  · exact rel_err _ _ (hE _)
+  · exact rel_err _ _ (hE _)
   · rename_i first more _
     have hg : GoodState c c' f P (enterBlock st name (first :: more)) := by
       unfold enterBlock; split <;> exact hst
-    have h := hrec.same vm first (enterBlock st name (first :: more)) hg
-    rw [enterBlock_map hR hpc hk hnext hst hrec]
+    have h := hbl vm first (enterBlock st name (first :: more)) hg
+    rw [enterBlock_map hE hR hpc hk hnext hst hrec]
     revert h
     cases rec vm first (enterBlock st name (first :: more)) <;>
-      cases rec' vm first (mapState f (enterBlock st name (first :: more))) <;>
-      intro h <;> first | exact h.elim | exact True.intro | skip
+      cases rec' vm first (mapStateP f π (enterBlock st name (first :: more))) <;>
+      intro h <;> first | exact h.elim | exact True.intro | exact h | skip
     rename_i a b
     obtain ⟨rfl, hga⟩ := h
     refine ⟨hnext, ?_, ?_⟩
     · unfold leaveBlock
       simp only [mapState_captureBlock]
-      by_cases hcb : (st.captureBlock == some name) = true <;> simp [hcb, mapState]
+      by_cases hcb : (st.captureBlock == some name) = true <;> simp [hcb, mapStateP]
     · unfold leaveBlock
       split <;> exact hga
 
 
-theorem arm_super :
-    StepRel c c' f P (stepSuper rec env vm c pc st) (stepSuper rec' env vm c' k (mapState f st)) := by
+theorem arm_super (hbl : BlockOK E π rec rec' c c' f P) :
+    StepRelG E π c c' f P (stepSuper rec env vm c pc st) (stepSuper rec' env vm c' k (mapStateP f π st)) := by
   unfold stepSuper
   simp only [mapState_currentBlockName, mapState_blocks]
   split
   · simpa [mapSpan, hk] using
-      rel_renderingError (P := P) hR env vm Value.undef (pc, pc) .superOutsideBlock (goodSlot_own hpc _)
+      rel_renderingError (P := P) hE hR env vm Value.undef (pc, pc) .superOutsideBlock (goodSlot_own hpc _)
   · split
     · exact rel_panic _ _
     · split
       · exact rel_panic _ _
       · split
         · simpa [mapSpan, hk] using
-            rel_renderingError (P := P) hR env vm Value.undef (pc, pc) .superTopLevel (goodSlot_own hpc _)
+            rel_renderingError (P := P) hE hR env vm Value.undef (pc, pc) .superTopLevel (goodSlot_own hpc _)
         · split
           · exact rel_panic _ _
           · rename_i blockChunk _ _ blocks1 _
             have hg : GoodState c c' f P (enterSuper st blocks1) := hst
-            have h := hrec.same vm blockChunk (enterSuper st blocks1) hg
-            have he : enterSuper (mapState f st) blocks1 = mapState f (enterSuper st blocks1) := rfl
+            have h := hbl vm blockChunk (enterSuper st blocks1) hg
+            have he : enterSuper (mapStateP f π st) blocks1 = mapStateP f π (enterSuper st blocks1) := rfl
             rw [he]
             revert h
             cases rec vm blockChunk (enterSuper st blocks1) <;>
-              cases rec' vm blockChunk (mapState f (enterSuper st blocks1)) <;>
-              intro h <;> first | exact h.elim | exact True.intro | skip
+              cases rec' vm blockChunk (mapStateP f π (enterSuper st blocks1)) <;>
+              intro h <;> first | exact h.elim | exact True.intro | exact h | skip
             rename_i a b
             obtain ⟨rfl, hga⟩ := h
             simp only [mapState_blocks]
             split
             · exact rel_panic _ _
             · refine ⟨hnext, ?_, ?_, hga.2⟩
-              · simp [leaveSuper, mapState, mapSlot, mapSpan, hk]
+              · simp [leaveSuper, mapStateP, mapSlot, mapSpan, hk]
               · exact goodStack_cons (goodSlot_own hpc _) hga.1
 
-theorem arm_callFunction (name : String) :
-    StepRel c c' f P (stepCallFunction rec env vm c name pc st)
-      (stepCallFunction rec' env vm c' name k (mapState f st)) := by
+theorem arm_callFunction (name : String) (hbl : name = "super" → BlockOK E π rec rec' c c' f P) :
+    StepRelG E π c c' f P (stepCallFunction rec env vm c name pc st)
+      (stepCallFunction rec' env vm c' name k (mapStateP f π st)) := by
   unfold stepCallFunction
   simp only [mapState_stack]
   cases hs : st.stack with
@@ -238,18 +327,19 @@ theorem arm_callFunction (name : String) :
     simp only [List.map_cons, mapSlot]
     split
     · have hst' : GoodState c c' f P { st with stack := rest } := ⟨hr, hst.2⟩
-      exact arm_super hR hpc hk hnext env vm hst' hrec
+      rename_i hsup
+      exact arm_super hE hR hpc hk hnext env vm hst' hrec (hbl hsup)
     · split
       · exact rel_panic _ _
       · split
         · split
           · rename_i v _
             refine ⟨hnext, ?_, goodStack_cons (goodSlot_own hpc _) hr, hst.2⟩
-            simp [mapState, mapSlot, mapSpan, hk]
+            simp [mapStateP, mapSlot, mapSpan, hk]
           · simpa [mapSpan, hk] using
-              rel_renderingError (P := P) hR env vm Value.undef (pc, pc) .call (goodSlot_own hpc _)
+              rel_renderingError (P := P) hE hR env vm Value.undef (pc, pc) .call (goodSlot_own hpc _)
           · simpa [mapSpan, hk] using
-              rel_renderingError (P := P) hR env vm Value.undef (pc, pc) .call (goodSlot_own hpc _)
+              rel_renderingError (P := P) hE hR env vm Value.undef (pc, pc) .call (goodSlot_own hpc _)
           · exact rel_panic _ _
           · exact rel_unmodelled _ _
         · exact rel_panic _ _
@@ -265,8 +355,8 @@ theorem popBody_map (hasBody : Bool) (rest : List Slot) :
     | cons s r => obtain ⟨b, sp⟩ := s; simp [mapSlot]
 
 theorem arm_component (name : String) (hasBody : Bool) :
-    StepRel c c' f P (stepComponent rec env vm c name hasBody pc st)
-      (stepComponent rec' env vm c' name hasBody k (mapState f st)) := by
+    StepRelG E π c c' f P (stepComponent rec env vm c name hasBody pc st)
+      (stepComponent rec' env vm c' name hasBody k (mapStateP f π st)) := by
   unfold stepComponent
   simp only [mapState_stack]
   cases hs : st.stack with
@@ -280,7 +370,7 @@ theorem arm_component (name : String) (hasBody : Bool) :
     · split
       · exact rel_panic _ _
       · rename_i cdef cchunk _
-        rw [popBody_map hR hpc hk hnext hst hrec]
+        rw [popBody_map hE hR hpc hk hnext hst hrec]
         cases hpb : popBody hasBody rest with
         | none => exact rel_panic _ _
         | some x =>
@@ -295,24 +385,19 @@ theorem arm_component (name : String) (hasBody : Bool) :
           simp only [Option.map_some]
           split
           · simpa [mapSpan, hk] using
-              rel_renderingError (P := P) hR env vm Value.undef (pc, pc) .componentBinding (goodSlot_own hpc _)
+              rel_renderingError (P := P) hE hR env vm Value.undef (pc, pc) .componentBinding (goodSlot_own hpc _)
           · rename_i bound _
             split
-            · exact rel_err _ _
-            · have hg : GoodState c c' f P (componentState bound) :=
-                ⟨by intro s hs; simp [componentState, State.fresh] at hs,
-                 by intro l hl; simp [componentState, State.fresh, Scope.forLoops] at hl⟩
-              have h := hrec.same { vm with depth := vm.depth + 1 } cchunk (componentState bound) hg
-              have he : mapState f (componentState bound) = componentState bound := rfl
-              rw [he] at h
+            · exact rel_err _ _ (hE _)
+            · have h := hrec.comp { vm with depth := vm.depth + 1 } cchunk bound
               revert h
               cases rec { vm with depth := vm.depth + 1 } cchunk (componentState bound) <;>
                 cases rec' { vm with depth := vm.depth + 1 } cchunk (componentState bound) <;>
-                intro h <;> first | exact h.elim | exact True.intro | skip
+                intro h <;> first | exact h.elim | exact True.intro | exact h | skip
               rename_i a b
-              obtain ⟨rfl, hga⟩ := h
+              have hout : b.out = a.out := h
               refine ⟨hnext, ?_, goodStack_cons (goodSlot_own hpc _) hr', hst.2⟩
-              simp [mapState, mapSlot, mapSpan, hk]
+              simp [mapStateP, mapSlot, mapSpan, hk, hout]
     · exact rel_panic _ _
 
 end arms
@@ -320,6 +405,63 @@ end arms
 
 /-- One turn of the VM on an instruction the optimiser keeps (its jump target renamed), at the
 renamed index on the renamed state. -/
+theorem step_keptG {E : RErr → RErr → Prop} {π : PMap} (hE : ∀ e, E e e)
+    {c c' : Chunk} {f : Nat → Nat} {P : Nat → Nat → Prop} (hR : Ren c c' f)
+    {rec rec' : VmCtx → Chunk → State → RunRes} (hrec : FreshOK E π rec rec' c c' f P)
+    (hf0 : f 0 = 0) (hP0 : P 0 0) {pc k : Nat} (hpc : Good c c' f pc) (hk : f pc = k)
+    (hnext : P (pc + 1) (k + 1)) (hsp : ∀ j, c'.hasSpanAt k j = c.hasSpanAt pc j)
+    (env : Env) (vm : VmCtx) {st : State} (hst : GoodState c c' f P st) (e : VEntry)
+    (ht : ∀ t, vtarget e.1 = some t → P t (f t) ∧ (t = 0 ↔ f t = 0))
+    (hbl : isBlockCall e.1 = true → BlockOK E π rec rec' c c' f P) :
+    StepRelG E π c c' f P (step rec env vm c e pc st)
+      (step rec' env vm c' (vmapTarget f e.1, e.2) k (mapStateP f π st)) := by
+  obtain ⟨i, sp⟩ := e
+  cases i <;> simp only [step, vmapTarget]
+  case loadConst v => exact arm_push hE hR hpc hk hnext hst v
+  case loadName n =>
+    simp only [mapState_scope, mapScope_lookupName]
+    exact arm_push hE hR hpc hk hnext hst _
+  case loadAttr a o => exact arm_loadAttr hE hR hpc hk hnext env vm hst a o
+  case binarySubscript o => exact arm_subscript hE hR hpc hk hnext env vm hst o
+  case slice o => exact arm_slice hE hR hpc hk hnext env vm hst o
+  case writeText t => exact arm_writeText hE hR hpc hk hnext hst t
+  case writeTop => exact arm_writeTop hE hR hpc hk hnext env vm hst
+  case set n g => exact arm_set hE hR hpc hk hnext hst n g
+  case include_ n => exact arm_include hE hR hpc hk hnext env vm hst hrec n
+  case buildMap n => exact arm_buildMap hE hR hpc hk hnext hst n
+  case buildList n => exact arm_buildList hE hR hpc hk hnext hst n
+  case buildMapWithSpreads fl => exact arm_buildMapWithSpreads hE hR hpc hk hnext env vm hst fl
+  case buildListWithSpreads fl => exact arm_buildListWithSpreads hE hR hpc hk hnext env vm hst fl
+  case callFunction n => exact arm_callFunction hE hR hpc hk hnext env vm hst hrec n (fun h => hbl (by simp [isBlockCall, h]))
+  case renderComponent n b => exact arm_component hE hR hpc hk hnext env vm hst hrec n b
+  case applyFilter n => exact arm_filterOrTest hE hR hpc hk hnext env vm hst false n
+  case runTest n => exact arm_filterOrTest hE hR hpc hk hnext env vm hst true n
+  case renderBlock n => exact arm_renderBlock hE hR hpc hk hnext vm hst hrec (hbl rfl) n
+  case jump t => exact arm_jump hE hR hpc hk hnext hst t (ht t rfl).1
+  case popJumpIfFalse t => exact arm_popJumpIfFalse hE hR hpc hk hnext hst t (ht t rfl).1
+  case jumpIfFalseOrPop t => exact arm_jumpOrPop hE hR hpc hk hnext hst false t (ht t rfl).1
+  case jumpIfTrueOrPop t => exact arm_jumpOrPop hE hR hpc hk hnext hst true t (ht t rfl).1
+  case capture => exact arm_capture hE hR hpc hk hnext hst
+  case endCapture => exact arm_endCapture hE hR hpc hk hnext hst
+  case startIterate kv cm => exact arm_startIterate hE hR hpc hk hnext env vm hst hf0 hP0 kv cm
+  case iterate t => exact arm_iterate hE hR hpc hk hnext hst t (ht t rfl).1 (ht t rfl).2
+  case storeLocal n => exact arm_storeLocal hE hR hpc hk hnext hst n
+  case storeDidNotIterate => exact arm_storeDidNotIterate hE hR hpc hk hnext hst
+  case break_ => exact arm_break hE hR hpc hk hnext hst
+  case popLoop => exact arm_popLoop hE hR hpc hk hnext hst
+  case appendToList => exact arm_appendToList hE hR hpc hk hnext hst
+  case math op => exact arm_math hE hR hpc hk hnext env vm hst op
+  case plus => exact arm_plus hE hR hpc hk hnext env vm hst
+  case cmp op => exact arm_cmp hE hR hpc hk hnext env vm hst op
+  case equal ng => exact arm_equal hE hR hpc hk hnext hst ng
+  case strConcat => exact arm_strConcat hE hR hpc hk hnext env hst
+  case in_ => exact arm_in hE hR hpc hk hnext env vm hst
+  case not_ => exact arm_not hE hR hpc hk hnext hst
+  case negative => exact arm_negative hE hR hpc hk hnext env vm hst
+  case loadPath p => exact arm_loadPath hE hR hpc hk hnext env vm hst hsp p
+  case writePath p => exact arm_writePath hE hR hpc hk hnext env vm hst hsp p
+
+/-- the form without an error relation -/
 theorem step_kept {c c' : Chunk} {f : Nat → Nat} {P : Nat → Nat → Prop} (hR : Ren c c' f)
     {rec rec' : VmCtx → Chunk → State → RunRes} (hrec : RecOK rec rec' c c' f P)
     (hf0 : f 0 = 0) (hP0 : P 0 0) {pc k : Nat} (hpc : Good c c' f pc) (hk : f pc = k)
@@ -328,51 +470,11 @@ theorem step_kept {c c' : Chunk} {f : Nat → Nat} {P : Nat → Nat → Prop} (h
     (ht : ∀ t, vtarget e.1 = some t → P t (f t) ∧ (t = 0 ↔ f t = 0)) :
     StepRel c c' f P (step rec env vm c e pc st)
       (step rec' env vm c' (vmapTarget f e.1, e.2) k (mapState f st)) := by
-  obtain ⟨i, sp⟩ := e
-  cases i <;> simp only [step, vmapTarget]
-  case loadConst v => exact arm_push hR hpc hk hnext hst v
-  case loadName n =>
-    simp only [mapState_scope, mapScope_lookupName]
-    exact arm_push hR hpc hk hnext hst _
-  case loadAttr a o => exact arm_loadAttr hR hpc hk hnext env vm hst a o
-  case binarySubscript o => exact arm_subscript hR hpc hk hnext env vm hst o
-  case slice o => exact arm_slice hR hpc hk hnext env vm hst o
-  case writeText t => exact arm_writeText hR hpc hk hnext hst t
-  case writeTop => exact arm_writeTop hR hpc hk hnext env vm hst
-  case set n g => exact arm_set hR hpc hk hnext hst n g
-  case include_ n => exact arm_include hR hpc hk hnext env vm hst hrec n
-  case buildMap n => exact arm_buildMap hR hpc hk hnext hst n
-  case buildList n => exact arm_buildList hR hpc hk hnext hst n
-  case buildMapWithSpreads fl => exact arm_buildMapWithSpreads hR hpc hk hnext env vm hst fl
-  case buildListWithSpreads fl => exact arm_buildListWithSpreads hR hpc hk hnext env vm hst fl
-  case callFunction n => exact arm_callFunction hR hpc hk hnext env vm hst hrec n
-  case renderComponent n b => exact arm_component hR hpc hk hnext env vm hst hrec n b
-  case applyFilter n => exact arm_filterOrTest hR hpc hk hnext env vm hst false n
-  case runTest n => exact arm_filterOrTest hR hpc hk hnext env vm hst true n
-  case renderBlock n => exact arm_renderBlock hR hpc hk hnext vm hst hrec n
-  case jump t => exact arm_jump hR hpc hk hnext hst t (ht t rfl).1
-  case popJumpIfFalse t => exact arm_popJumpIfFalse hR hpc hk hnext hst t (ht t rfl).1
-  case jumpIfFalseOrPop t => exact arm_jumpOrPop hR hpc hk hnext hst false t (ht t rfl).1
-  case jumpIfTrueOrPop t => exact arm_jumpOrPop hR hpc hk hnext hst true t (ht t rfl).1
-  case capture => exact arm_capture hR hpc hk hnext hst
-  case endCapture => exact arm_endCapture hR hpc hk hnext hst
-  case startIterate kv cm => exact arm_startIterate hR hpc hk hnext env vm hst hf0 hP0 kv cm
-  case iterate t => exact arm_iterate hR hpc hk hnext hst t (ht t rfl).1 (ht t rfl).2
-  case storeLocal n => exact arm_storeLocal hR hpc hk hnext hst n
-  case storeDidNotIterate => exact arm_storeDidNotIterate hR hpc hk hnext hst
-  case break_ => exact arm_break hR hpc hk hnext hst
-  case popLoop => exact arm_popLoop hR hpc hk hnext hst
-  case appendToList => exact arm_appendToList hR hpc hk hnext hst
-  case math op => exact arm_math hR hpc hk hnext env vm hst op
-  case plus => exact arm_plus hR hpc hk hnext env vm hst
-  case cmp op => exact arm_cmp hR hpc hk hnext env vm hst op
-  case equal ng => exact arm_equal hR hpc hk hnext hst ng
-  case strConcat => exact arm_strConcat hR hpc hk hnext env hst
-  case in_ => exact arm_in hR hpc hk hnext env vm hst
-  case not_ => exact arm_not hR hpc hk hnext hst
-  case negative => exact arm_negative hR hpc hk hnext env vm hst
-  case loadPath p => exact arm_loadPath hR hpc hk hnext env vm hst hsp p
-  case writePath p => exact arm_writePath hR hpc hk hnext env vm hst hsp p
+  have h := (step_keptG (E := fun _ _ => True) (π := idP) (fun _ => True.intro) hR
+    (RecOKG.of_true hrec).fresh hf0 hP0 hpc hk hnext hsp env vm hst e ht
+    (fun _ => (RecOKG.of_true hrec).blockOK)).weaken
+  rw [mapStateP_id] at h
+  exact h
 
 end OptimizeSimVm
 end Tera
